@@ -81,6 +81,18 @@ def cases(tier, rng, schema, feats):
             add("authdata", flavour, (b"\x5a" * 32).hex(), "c1" if flavour == "mc" else "81", "%x" % rng.below(2**32),
                 ("00" * 16 + ":" + rng.bytes(rng.below(40)).hex() + ":" + "a0") if flavour == "mc" else "-",
                 gen.show(g.named_val(t, present=sub, focus=True)))
+    # the advertised algorithm list holds whatever identifiers the authenticator put there (any i32, duplicates included): every COSE
+    # identifier in -70..7 and the range ends, alone, doubled and next to a supported one, stand-alone and inside GetInfo
+    scan = list(range(-70, 8)) + [-259, -258, -257, -256, -65536, -65535, 23, 24, 255, 256, 65535, 65536, 2**31 - 1, -(2**31)]
+    gi_t = RESPONSES.get("GetInfo")
+    for a in scan:
+        for algs in ([a], [a, a], [-7, a], [a, -8]):
+            lst = ("L", [("R", [("alg", ("i", x))]) for x in algs])
+            add("encty", "webauthn::FilteredPublicKeyCredentialParameters", gen.show(lst))
+            if gi_t and algs in ([a], [-7, a]):
+                base = g.named_val(gi_t, present=frozenset(["algorithms", "max_serialized_large_blob_array"]))
+                fs = [(l, ("S", lst) if l == "algorithms" else v) for l, v in base[1]]
+                add("enc2", "GetInfo", "7609", "-", gen.show(("R", fs)))
     return out
 
 
